@@ -140,6 +140,7 @@ type Outcome struct {
 	Log      []string
 	Points   []Point
 	Steps    int
+	Gs       int // goroutines created in the execution (main included)
 	Pruned   bool
 	Aborted  string   // framework-level abort reason (step cap)
 	Fails    []string // violations recorded in-execution by the harness (Fail)
@@ -871,6 +872,7 @@ func run(prefix []int, opts *Options, cache *Cache, body func()) *Outcome {
 	ex = nil
 	e.out.Points = e.points
 	e.out.Steps = e.steps
+	e.out.Gs = len(e.gs)
 	return &e.out
 }
 
